@@ -95,6 +95,18 @@ class Ctx:
     def note(self, rule, fi, construct, what='', node=None, **kw):
         return self.ob(rule, NOTE, fi, construct, what, node, **kw)
 
+    def rule(self, fn, rid, *args, **kw):
+        """Run one rule; a rule that cannot be evaluated (vanished anchor, unsupported construct) becomes an UNDECIDED
+        obligation of that rule instead of aborting the check, so the remaining rules still report what they see."""
+        from .model import AnalysisError
+        try:
+            return fn(self, rid, *args, **kw)
+        except AnalysisError as e:
+            node = getattr(e, 'node', None)
+            self.ob(rid, UNDECIDED, '%s.%s' % (fn.__module__.split('.')[-1], fn.__name__), 'rule could be evaluated',
+                    str(e)[:300], file='', line=getattr(node, 'lineno', 0) or 0)
+            return None
+
     def count(self, key, n=1):
         self.cover[key] = self.cover.get(key, 0) + n
 
